@@ -272,7 +272,7 @@ TEXTS = {
                 "between that union and the node's set (set_to_last yields the new set paired with every live set, in order); "
                 "C17_initial_matrix: the run starts from the user's distance of every pair of input sets (each pair asked once: "
                 "C17_initial_pairs_each_once). The replay additionally checks per merge that no live pair is closer, the reported distance, and the "
-                "method-specific update (min / max / mean / user distance on the union); the transcription is diffed bit for bit. THE MODEL'S RUN RETURNS A DENDROGRAM (C17_run_returns_a_dendrogram, every number type / distance / method): n-1 merges, merge k has lhs < rhs < n+k and size = sum of its parts, every node 0..2n-3 is merged exactly once, the last merge has size n, indicies is a permutation of 0..n-1. TOTALITY (C17_clustering_returns): all four methods return on every non-empty list of sets, for every number type and distance function (no expect() of linkage.rs panics, the Combinations iterator ends within its fuel) — so clustering n sets YIELDS exactly n-1 merges forming a dendrogram. A fifth of the one-term-set cases carry one infinite user distance (merged last, no ties).",
+                "method-specific update (min / max / mean / user distance on the union); the transcription is diffed bit for bit. THE MODEL'S RUN RETURNS A DENDROGRAM (C17_run_returns_a_dendrogram, every number type / distance / method): n-1 merges, merge k has lhs < rhs < n+k and size = sum of its parts, every node 0..2n-3 is merged exactly once, the last merge has size n, indicies is a permutation of 0..n-1. TOTALITY (C17_clustering_returns): all four methods return on every non-empty list of sets, for every number type and distance function (no expect() of linkage.rs panics, the Combinations iterator ends within its fuel) — so clustering n sets YIELDS exactly n-1 merges forming a dendrogram. A fifth of the one-term-set cases carry one infinite user distance (merged last, no ties). Beyond the model's reach in size: one clustering of 260-300 sets per run is checked for the dendrogram conditions by an oracle inside the harness (testing, not proof; the theorem covers every n for the transcription).",
         "design_ref": "DESIGN.md §4 C17, §9",
         "note": NOTE_COMMON + "Axioms: the four standard-library axioms behind Coq Reals (via Flocq's binary32 in the replay's distance type). HashMap order: on a tie the crate may merge another minimal pair than the model; such runs are decided by the replay only.",
         "technique": TECH,
